@@ -373,7 +373,9 @@ class dotdict_base( object ):
                              for k,v in super( dotdict_base, self ).items() )
 
     def __copy__( self ):
-        return type( self )( (k,copy.copy( v ))
+        """Copy each layer, including the layers held in lists of dotdicts (addressed as name[i])."""
+        return type( self )( (k,( [ copy.copy( e ) if isinstance( e, dotdict_base ) else e for e in v ]
+                                  if type( v ) is list else copy.copy( v )))
                              for k,v in super( dotdict_base, self ).items() )
 
 
